@@ -29,14 +29,14 @@ SPEC = {
     "modules": ["HC.Props.C04"],
     "extracted": ["C04Sites", "H11Tables"],
     "technique": "Lean 4 theorems over an Except-valued executable model of the receive-side glue of H2Protocol (every `try`/`except` clause extracted from the source per site, class membership from the installed libraries' MRO, libraries as oracles restricted by LibWf) and over the H11Protocol / WSStream models: totality for every library-event sequence, application behaviour and schedule; the HTTP/1 error path; non-interference of the merely unusual streams.  Tied by replaying the tap log of real H2Protocol runs through the model (calls, dictionaries, priority tree, uncaught exceptions, LibWf per answer) and by robustness monitors on the real TCPServer of both workers over corpus, random, mutated and grammar-generated inputs",
-    "level_text": "Proved in Lean (HC/Props/C04.lean over HC/Proto/H2Recv.lean): for EVERY sequence of h2 events, application sends (stream_send), send-task iterations, closes and shutdown, with every answer the h2 and priority libraries can give (LibWf: h2 raises only ProtocolError subclasses, priority only PriorityError subclasses, MissingStreamError iff absent, DuplicateStreamError iff present, RequestReceived has :method and has :path unless it is an ordinary CONNECT), no exception escapes the reader, stream_send or the send task (total_h2_partial; invariant: every buffered stream is in the priority tree) - except RecursionError out of next(priority) on a ~1000 deep dependency chain, which is the proved negation witness total_h2_fails_as_is (finding F44); receive_data raising any ProtocolError yields exactly flush (GOAWAY) then Closed with no state touched (h2_protocol_error); leaving out the merely unusual events of a stream (DATA/END_STREAM after its response completed, CONNECT without :path, non-ASCII :method/:path) leaves the final state and every other stream's observation identical (isolation), and those requests are answered by exactly one send_headers on their own stream (unusual_request_answered).  HTTP/1: a RemoteProtocolError with hint h while h11's writer is IDLE or SEND_RESPONSE produces exactly Response h [content-length 0, connection close, server headers], EndOfMessage, Closed and starts no application (h1_malformed); every library-accepted HTTP/1 event is handled without exception in the plain-HTTP flow (total_h1).  Every except tuple, the raw_path default/guard, the decode check, the order of tree entry vs stream creation, the error states and error headers are extracted from the source on every run; the exception class hierarchy is read from the installed h2 / priority / h11 / wsproto.",
+    "level_text": "Proved in Lean (HC/Props/C04.lean over HC/Proto/H2Recv.lean): for EVERY sequence of h2 events, application sends (stream_send), send-task iterations, closes and shutdown, with every answer the h2 and priority libraries can give (LibWf: h2 raises only ProtocolError subclasses, priority only PriorityError subclasses, MissingStreamError iff absent, DuplicateStreamError iff present, RequestReceived has :method and has :path unless it is an ordinary CONNECT), no exception escapes the reader, stream_send or the send task (total_h2_partial / total_h2_from; invariant: every buffered stream is in the priority tree) - except RecursionError out of next(priority) on a ~1000 deep dependency chain, which is the proved negation witness total_h2_fails_as_is (finding F44); receive_data raising any ProtocolError yields exactly flush (GOAWAY) then Closed with no state touched (h2_protocol_error); leaving out the merely unusual events of a stream (DATA/END_STREAM after its response completed, CONNECT without :path, non-ASCII :method/:path) leaves the final state and every other stream's observation identical (isolation, odd_step), and those requests are answered by exactly one send_headers on their own stream (unusual_request_answered, createStream_rejected).  HTTP/1 (over the H11Protocol model of C06): a RemoteProtocolError with hint h while no completed request is being answered and h11's writer is IDLE or SEND_RESPONSE produces exactly send(Response h [content-length 0, connection close, server headers]), send(EndOfMessage), Closed, the reader leaves the loop and no application or stream is created (h1_malformed, h1_malformed_no_app); in any other writer state only Closed (h1_malformed_other_state); that path handles the error in every state (h1_protocol_error_total).  Every except tuple, the raw_path default/guard, the decode check, the order of tree entry vs stream creation, the HTTP/1 error states and error headers and the WSStream early-data state are extracted from the source on every run (h1_error_guard, ws_early_data_guard and the catches_* lemmas fail to build when they change); the exception class hierarchy is read from the installed h2 / priority / h11 / wsproto.  Totality of the HTTP/1 and WebSocket flows beyond the error path is not restated as a theorem here: it rests on the C06/C10/C11 models' differential runs and on this check's monitors.",
     "level_note": "Trusted: Lean kernel; tools/extract_c04.py (per-try-site extraction); the hand-written model HC/Proto/H2Recv.lean (one _send_data iteration is atomic in it; stream objects are opaque: their handle() does not raise - for WSStream that is the content of total_ws, for HTTPStream the type of Http.handle - apart from the ASCII path they require of a Request); LibWf is an assumption about h2 4.4.1 / priority 2.0.0 that is checked on every tap log of this run (an answer outside LibWf is reported as a disagreement); h2's, h11's and wsproto's own byte-level parsers are library behaviour: 'every byte string' is a theorem over every library-event sequence plus sampled bytes -> events.  The h2c upgrade path (ProtocolWrapper / H2CProtocolRequiredError) is covered by the monitors only.",
     "rule": "distinct = distinct sequences (length <= 8 window) of (library event kind, stream-state class in {unknown, live, forgotten, conn}) that reached the glue in direct-drive runs, plus distinct (family, generator class, segmentation, worker) cells end-to-end; non-trivial = the sequence contains an event for a forgotten/unknown stream, a refused or rejected request, a PRIORITY event, a reset, or receive_data raised",
     "trusted": ["h2 4.4.1 / hpack / hyperframe / priority 2.0.0 / h11 0.16 / wsproto as libraries (LibWf sampled by taps)",
                 "hyperframe + hpack as the harness's own frame writer and tolerant output parser; h11 in server role as the oracle for 'malformed HTTP/1 with hint h'"],
     "partial": ["F44 (RecursionError from next(priority) on a ~1000 deep PRIORITY dependency chain): total_h2 holds only as total_h2_partial, negation witness total_h2_fails_as_is; listed in known_findings.json",
                 "F43 (h2c upgrade with an undecodable HTTP2-Settings header): monitors only, listed in known_findings.json",
-                "total_h1 covers the plain-HTTP flow of the H11Protocol model; the WebSocket-over-HTTP/1 flow is covered by total_ws (stream level) and by the monitors"],
+                "total_h1 / total_ws are not proved as whole-flow theorems: for HTTP/1 the error path (h1_malformed*) is, the rest of the HTTP/1 and WebSocket receive paths is covered by the monitors (corpus, mutation of recorded HTTP/1 / WebSocket sessions, both workers) and by the differential runs of C06/C10/C11 on the same models"],
     "assumptions": ["one `_send_data` iteration is atomic in the model (its interleaving with `_reset_abandoned_response` is C05/C08 territory)",
                     "config.h2_max_concurrent_streams stays far below the interpreter's recursion limit"],
 }
@@ -172,23 +172,22 @@ def run_e2e(case: dict, worker: str) -> dict:
     return res
 
 
-def h1_oracle(data: bytes, eof: bool) -> dict:
-    """what an independent h11 server-role parser says about the whole input: is the *first* thing it reports a protocol
-    error (then with which hint), or does a request come first"""
+def h1_oracle(reads: List[bytes], eof: bool) -> dict:
+    """what an independent h11 server-role parser, fed the same reads in the same order, reports first: a protocol error
+    (with which hint), or a request"""
     conn = h11.Connection(h11.SERVER, max_incomplete_event_size=16384)
-    conn.receive_data(data)
-    if eof:
+    for chunk in [r for r in reads if r] + ([b""] if eof else []):
         try:
-            conn.receive_data(b"")
-        except Exception:
-            pass
-    try:
-        ev = conn.next_event()
-    except h11.RemoteProtocolError as e:
-        return {"first": "error", "hint": e.error_status_hint}
-    if isinstance(ev, h11.Request):
-        return {"first": "request", "method": b2s(ev.method), "target": b2s(ev.target),
-                "upgrade": any(n == b"upgrade" for n, _ in ev.headers)}
+            conn.receive_data(chunk)
+            ev = conn.next_event()
+        except h11.RemoteProtocolError as e:
+            return {"first": "error", "hint": e.error_status_hint}
+        except Exception:  # noqa
+            return {"first": "none"}
+        if isinstance(ev, h11.Request):
+            return {"first": "request", "method": b2s(ev.method), "target": b2s(ev.target)}
+        if ev is not h11.NEED_DATA:
+            return {"first": "none"}
     return {"first": "none"}
 
 
@@ -211,8 +210,10 @@ def monitor_e2e(ctx: Ctx, case: dict, worker: str, res: dict) -> Optional[dict]:
     # M1: nothing escapes the connection handler, nothing reaches the loop's exception handler / the nursery
     if res["error"] or res["loop_errors"]:
         data = b"".join(s2b(x) for x in case["reads"])
+        tapraised = (res.get("client_result") or {}).get("raised") or []
+        trigger = "priority_next_recursion" if "next:RecursionError" in tapraised else H.trigger_of(case["proto"], data)
         ctx.violation("handler_exception", rcase, {"error": res["error"], "loop": res["loop_errors"], "closed_at": res["closed_at"]},
-                      {**sig, "error": err_sig(res), "trigger": H.trigger_of(case["proto"], data)})
+                      {**sig, "error": err_sig(res), "trigger": trigger})
         ctx.count("error_kind", err_sig(res))
         return None
     # the handler ended, or is still serving an open connection
@@ -221,7 +222,7 @@ def monitor_e2e(ctx: Ctx, case: dict, worker: str, res: dict) -> Optional[dict]:
     tapinfo = res.get("client_result") or {"kinds": [], "raised": []}
     data = b"".join(s2b(x) for x in case["reads"])
     if case["proto"] == "h1":
-        o = h1_oracle(data, case.get("eof", True))
+        o = h1_oracle([s2b(x) for x in case["reads"]], case.get("eof", True))
         ctx.count("h1.oracle", o["first"] + (":" + str(o.get("hint")) if o["first"] == "error" else ""))
         if o["first"] == "error":
             # M2: exactly the hinted response, content-length 0 + connection close, then closed; no application started
@@ -547,7 +548,7 @@ def gen_e2e(ctx: Ctx) -> List[dict]:
     # mutations of recorded valid sessions
     sessions = valid_sessions(rng)
     names = sorted(sessions)
-    for i in range(ctx.budget(168, 5000)):
+    for i in range(ctx.budget(168, 3000)):
         name = names[i % len(names)]
         proto, data, scripts = sessions[name]
         how = MUTATIONS[(i // len(names)) % len(MUTATIONS)]
@@ -863,9 +864,9 @@ def check_direct(ctx: Ctx, cases: List[dict]) -> None:
         if r.get("stuck"):
             ctx.count("direct.reader_waits_for_send_task", 1)
         if r["error"]:
-            data = b"".join(s2b(st["read"]) for st in case["steps"] if "read" in st)
+            trigger = "priority_next_recursion" if any(e[0] == "next" and e[1] == "raised" and e[2] == "RecursionError" for e in r["log"]) else "other"
             ctx.violation("handler_exception", case, {"error": r["error"], "events": seq[-6:]},
-                          {**sig, "error": r["error"].split(".")[-1], "trigger": H.trigger_of("h2", data)})
+                          {**sig, "error": r["error"].split(".")[-1], "trigger": trigger})
             ctx.count("error_kind", r["error"])
         if model is None:
             continue
@@ -910,7 +911,7 @@ def check_direct(ctx: Ctx, cases: List[dict]) -> None:
 def run(ctx: Ctx) -> None:
     # corpus first
     check_e2e(ctx, corpus())
-    direct = [gen_direct(ctx.rng, i) for i in range(ctx.budget(500, 12000))]
+    direct = [gen_direct(ctx.rng, i) for i in range(ctx.budget(500, 8000))]
     check_direct(ctx, direct)
     check_e2e(ctx, gen_e2e(ctx))
 
